@@ -208,7 +208,7 @@ def _check(obs, model, mesh, ems, topo, supplied, e):
     obs.expect_equal(obs.call('node_dimension', lambda: topo.node_dimension), e['node_dim'], 'node dimension')
     obs.expect_equal(obs.call('max_node_dimension', lambda: topo.max_node_dimension), e['max_dim'], 'max node dimension')
     obs.expect_equal(obs.call('counts', lambda: (topo.face_count, topo.node_count, topo.max_node_count)),
-                     (mesh.nface, mesh.nnode, mesh.max_nodes), 'face / node / max-node counts')
+                     (mesh.nface, mesh.nnode, mesh.max_nodes + e.get('extra_width', 0)), 'face / node / max-node counts (the table width as stored)')
     has_edge = obs.call('has_edge_dimension', lambda: bool(topo.has_edge_dimension))
     obs.expect_equal(has_edge, model.has_edges, 'edge dimension present iff declared or implied')
     kinds = obs.call('grid_kinds', lambda: sorted(str(k.value) for k in ems.grid_kinds))
@@ -224,7 +224,7 @@ def _check(obs, model, mesh, ems, topo, supplied, e):
     fn = obs.call('face_node_array', lambda: topo.face_node_array)
     if isinstance(fn, Failed):
         return
-    ok = obs.expect(fn.shape == (mesh.nface, mesh.max_nodes) and rows_of(fn) == mesh.faces and prefix_ok(fn)
+    ok = obs.expect(fn.shape == (mesh.nface, mesh.max_nodes + e.get('extra_width', 0)) and rows_of(fn) == mesh.faces and prefix_ok(fn)
                     and numpy.issubdtype(numpy.ma.getdata(fn).dtype, numpy.integer),
                     'normalised face-node table is identical for every encoding (zero-based, masked where no node)',
                     lambda: {'got': rows_of(fn), 'want': mesh.faces, 'shape': fn.shape}, mech='face-node-normalisation')
